@@ -209,6 +209,20 @@ def col_case(inp, op, model_term, spec_term, res, args_repr, py_agree=True, triv
     }
 
 
+def refused_means_unchanged(obj, fn):
+    """run an in-place operation on obj; if it RAISES, the object must be exactly as before - otherwise the (changed) object is
+    returned as if the operation had succeeded, so that the verdict sees what was stored"""
+    before = repr(obj.chunked_array.to_pylist()), str(obj.chunked_array.type)
+    try:
+        fn()
+    except Exception:
+        after = repr(obj.chunked_array.to_pylist()), str(obj.chunked_array.type)
+        if after != before:
+            return obj
+        raise
+    return obj
+
+
 def plain_rows(inp):
     """the plain Python list of rows (the property's own oracle for C05)"""
     names = [n for n, _ in inp["schema"]]
@@ -366,6 +380,11 @@ def op_take(rng, inp):
         ix[rng.randrange(len(ix))] = rng.choice([n, n + 2])
     elif r < 0.2 and ix:
         ix[rng.randrange(len(ix))] = -2 if allow_fill else -n - 1
+    if n >= 2 and rng.random() < 0.25:
+        # a run of CONSECUTIVE positions crossing zero (what reindex / shift-like callers produce)
+        start = -1 if allow_fill else rng.randint(-min(n, 3), -1)
+        ix = list(range(start, start + rng.randint(2, min(n, 4) + 1)))
+        ix = [j for j in ix if j < n]
     fill_t = None
     fill_kind = "none"
     if allow_fill and rng.random() < 0.6:
@@ -414,14 +433,16 @@ def op_simple(rng, inp, which=None):
 # C05 / C01: element assignment
 
 
-def op_setitem(rng, inp, malformed=False, via_series=False, force_multi=False):
+def op_setitem(rng, inp, malformed=False, via_series=False, force_multi=False, force_ragged=False):
     arr, n = inp["arr"], len(inp["rows"])
     schema = inp["schema"]
     kind = rng.choice(["int", "slice", "mask", "idx", "idx"])
     if via_series and kind == "slice":
         kind = "idx"   # pandas' own length check for slice keys (length_of_indexer) is not ours to verify
+    neg_slice = False
     if force_multi and n >= 2:
-        kind = rng.choice(["idx", "mask"])      # several DIFFERENT rows written to several targets (they may lie in different chunks)
+        kind = rng.choice(["idx", "mask", "slice"])      # several DIFFERENT rows written to several targets (they may lie in different chunks)
+        neg_slice = kind == "slice"
     # key
     if kind == "int":
         z = gen_int(rng, n) if (malformed or n == 0) else rng.randint(-n, n - 1)
@@ -432,6 +453,10 @@ def op_setitem(rng, inp, malformed=False, via_series=False, force_multi=False):
             targets = None
     elif kind == "slice":
         a, b, s = gen_slice(rng, n)
+        if neg_slice:
+            # a slice with a NEGATIVE step over at least two targets: the values are consumed from the end
+            s = rng.choice([-1, -1, -2])
+            a, b = rng.choice([(None, None), (n - 1, None), (n - 1, 0), (-1, -n - 1)])
         key = slice(a, b, s)
         mkey = f"(KSlice {cq_optZ(a)} {cq_optZ(b)} {cq_optZ(s)})"
         skey = f"(ASlice {cq_optZ(a)} {cq_optZ(b)} {cq_optZ(s)})"
@@ -459,7 +484,16 @@ def op_setitem(rng, inp, malformed=False, via_series=False, force_multi=False):
     # value
     seq_as_scalar = False
     vkind = rng.choice(["row", "row", "rows", "rows", "nea"])
-    ragged = malformed and rng.random() < 0.6
+    ragged = (malformed and rng.random() < 0.6) or force_ragged
+    if force_ragged:
+        # a VALID key over at least one target and the right number of values: only the raggedness of one offered row is wrong
+        vkind = rng.choice(["row", "rows"])
+        if not targets:
+            kind = "int"
+            z = rng.randint(-n, n - 1) if n else 0
+            key, mkey, skey = z, f"(KInt {cq_Z(z)})", f"(AInt {cq_Z(z)})"
+            targets = [range(n)[z]] if n else []
+            cnt = len(targets)
     if force_multi:
         vkind = rng.choice(["rows", "nea"])
     if via_series:
@@ -468,7 +502,7 @@ def op_setitem(rng, inp, malformed=False, via_series=False, force_multi=False):
         vkind = rng.choice(["row", "nea", "nea"])
         ragged = False
     if vkind == "row" or (cnt == 0 and rng.random() < 0.5 and not via_series and not force_multi):
-        t = None if (rng.random() < 0.25 or via_series) else gen_table(rng, schema, ragged=ragged)
+        t = None if ((rng.random() < 0.25 and not force_ragged) or via_series) else gen_table(rng, schema, ragged=ragged)
         value = table_to_value(rng, schema, t)
         mval = f"(SRow {cq_lrow(table_to_lrow(schema, t))})"
         sval = f"(ARow {cq_lrow(table_to_lrow(schema, t))})"
@@ -511,8 +545,7 @@ def op_setitem(rng, inp, malformed=False, via_series=False, force_multi=False):
             else:
                 s.iloc[key] = value
             return s.array
-        a2[key] = value
-        return a2
+        return refused_means_unchanged(a2, lambda: a2.__setitem__(key, value))
 
     res = attempt(run)
     # the plain-list oracle
@@ -604,8 +637,7 @@ def op_set_flat(rng, inp, via="array", malformed=False):
     def run():
         if via == "array":
             a2 = arr.copy()
-            a2.set_flat_field(name, value, keep_dtype=keep)
-            return a2
+            return refused_means_unchanged(a2, lambda: a2.set_flat_field(name, value, keep_dtype=keep))
         s = pd.Series(arr, name="n", index=range(len(arr)))
         out = s.nest.with_flat_field(name, value) if via == "with_flat_field" else s.nest.with_field(name, value)
         assert out.name == "n" and list(out.index) == list(range(len(arr)))
@@ -660,8 +692,7 @@ def op_set_lists(rng, inp, via="array", malformed=False):
     def run():
         if via == "array":
             a2 = arr.copy()
-            a2.set_list_field(name, value, keep_dtype=keep)
-            return a2
+            return refused_means_unchanged(a2, lambda: a2.set_list_field(name, value, keep_dtype=keep))
         s = pd.Series(arr, name="n", index=range(len(arr)))
         out = s.nest.with_list_field(name, value)
         assert out.name == "n" and list(out.index) == list(range(len(arr)))
@@ -690,8 +721,7 @@ def op_fill(rng, inp, via="array", malformed=False):
     def run():
         if via == "array":
             a2 = arr.copy()
-            a2.fill_field_lists(name, value)
-            return a2
+            return refused_means_unchanged(a2, lambda: a2.fill_field_lists(name, value))
         s = pd.Series(arr, name="n", index=range(len(arr)))
         out = s.nest.with_filled_field(name, value)
         assert out.name == "n" and list(out.index) == list(range(len(arr)))
@@ -725,8 +755,7 @@ def op_select_fields(rng, inp, via="array", malformed=False):
         def run():
             if via == "array":
                 a2 = arr.copy()
-                a2.pop_fields(fields)
-                return a2
+                return refused_means_unchanged(a2, lambda: a2.pop_fields(fields))
             s = pd.Series(arr, name="n", index=range(len(arr)))
             out = s.nest.without_field(fields if len(fields) != 1 or rng.random() < 0.5 else fields[0])
             assert out.name == "n" and out.dtype == out.array.dtype
